@@ -162,7 +162,7 @@ func (e *Engine) feasible(st *State, extra ...*Term) bool {
 			return false
 		}
 	}
-	v, _, why := e.solver.Check(st.pc, extra, nil)
+	v, why := e.solver.CheckFeas(st.pc, extra)
 	if v == Unknown {
 		e.inconclusive("feasibility unknown: " + why)
 		return true
